@@ -35,6 +35,7 @@ class Flag:
         self.setters: list = []
         self.clearers: list = []
         self.getters: list = []
+        self.mixed: list = []  # functions that both set and clear/restore (e.g. context managers)
         self.guarded_setters: set = set()  # setters that raise when the flag is already set
         self.raising_getters: set = set()
 
@@ -70,17 +71,33 @@ def discover_flags(model: Model, roles: Roles, stack_tl) -> list:
                             vals.append(n.value)
             if not vals:
                 raise AnalysisError(f"{q}: store to thread-local flag in an unrecognised form")
-            if all(isinstance(v, ast.Constant) and not v.value for v in vals):
+            falsy = [isinstance(v, ast.Constant) and not v.value for v in vals]
+            truthy = [(isinstance(v, ast.Constant) and bool(v.value)) or isinstance(v, ast.JoinedStr)
+                      or _is_module_sentinel(model, fn, v) for v in vals]
+            if all(falsy):
                 fl.clearers.append(fn)
-            else:
+            elif all(truthy):
                 fl.setters.append(fn)
                 if any(isinstance(n, ast.Raise) for n in walk_scope(fn.node)) and loads:
                     fl.guarded_setters.add(q)
+            else:
+                fl.mixed.append(fn)
         elif loads:
             fl.getters.append(fn)
             if any(isinstance(n, ast.Raise) for n in walk_scope(fn.node)):
                 fl.raising_getters.add(q)
-    return [f for f in flags.values() if f.setters or f.clearers]
+    return [f for f in flags.values() if f.setters or f.clearers or f.mixed]
+
+
+def _is_module_sentinel(model, fn, v) -> bool:
+    """A module-level name bound once to a (truthy) object such as `object()`."""
+    if not isinstance(v, ast.Name):
+        return False
+    b = model.resolve_name(fn, v.id)
+    if b.kind != "modvar":
+        return False
+    vals = b.target[0].assigns.get(b.target[1], [])
+    return len(vals) == 1 and isinstance(vals[0], ast.Call)
 
 
 def _pure_stable(test, fn: FuncInfo) -> bool:
@@ -151,14 +168,19 @@ def analyse_flag_function(model: Model, roles: Roles, cg: CallGraph, flag: Flag,
     reach = cg.reachable(roots)
     reentrant = fn.qualname in reach
     # sole setter: every call site of every setter lies in fn
-    sole = True
+    sole = not [x for x in flag.mixed if x.qualname != fn.qualname]
     for s in flag.setters:
         for caller, _ in cg.callers(s):
             if caller.qualname != fn.qualname:
                 sole = False
     e0 = "falsy" if (sole and not reentrant) else "?"
 
+    def is_flag_attr(e) -> bool:
+        t = roles.tl_of_expr(fn, e)
+        return t is not None and t[0] == flag.tl and t[1] and t[1][0] == flag.attr
+
     percall: dict = {}
+    direct: dict = {}  # node id -> ('set'|'clr'|'restore:<var>'|'save:<var>')
     for n in g.live_nodes():
         lst = []
         cs = node_calls(n)
@@ -167,6 +189,28 @@ def analyse_flag_function(model: Model, roles: Roles, cg: CallGraph, flag: Flag,
             if ro is not None:
                 lst.append((c, ro, i, len(cs)))
         percall[n.id] = lst
+        a = n.ast
+        if n.kind == "stmt" and isinstance(a, ast.Assign):
+            for t in a.targets:
+                if isinstance(t, ast.Attribute) and is_flag_attr(t):
+                    v = a.value
+                    if isinstance(v, ast.Constant):
+                        direct[n.id] = "set" if v.value else "clr"
+                    elif isinstance(v, ast.JoinedStr):
+                        direct[n.id] = "set"
+                    elif _is_module_sentinel(model, fn, v):
+                        direct[n.id] = "set"
+                    elif isinstance(v, ast.Name):
+                        direct[n.id] = "restore:" + v.id
+                    else:
+                        raise AnalysisError(f"{fn.qualname}: store of an unrecognised value into flag {flag.name}: `{norm(a)}`")
+            if len(a.targets) == 1 and isinstance(a.targets[0], ast.Name):
+                v = a.value
+                if isinstance(v, ast.Attribute) and is_flag_attr(v):
+                    direct[n.id] = "save:" + a.targets[0].id
+                elif isinstance(v, ast.Call) and isinstance(v.func, ast.Name) and v.func.id == "getattr" and v.args and is_flag_attr(
+                        ast.Attribute(value=v.args[0], attr=v.args[1].value if len(v.args) > 1 and isinstance(v.args[1], ast.Constant) else "?", ctx=ast.Load())):
+                    direct[n.id] = "save:" + a.targets[0].id
 
     def saved_var(node, call):
         """`v = <getter>()`: name v (whole-value assignment)."""
@@ -228,6 +272,34 @@ def analyse_flag_function(model: Model, roles: Roles, cg: CallGraph, flag: Flag,
             tail = (i < ncalls - 1) or not _is_whole_value(node, c)
             if tail and cur is not None:
                 exc_states.add(cur)
+        dv = direct.get(node.id)
+        if dv is not None and is_exc and (dv == "clr" or dv.startswith("restore:")):
+            # a plain attribute store that releases: post-state on its exceptional edge too
+            # (same convention as for the trivial clear function)
+            new_exc = set()
+            for (v, e) in exc_states or {cur}:
+                if dv == "clr":
+                    new_exc.add(("CLR" if v != "ERR" else "ERR", e))
+                elif saved_d.get(dv.split(":", 1)[1]) == "E":
+                    new_exc.add(("E", e))
+                else:
+                    new_exc.add((v, e))
+            exc_states = new_exc
+        if dv is not None and cur is not None and not is_exc:
+            v, e = cur
+            if dv == "set":
+                cur = ("SET", e)
+            elif dv == "clr":
+                cur = ("CLR" if v != "ERR" else "ERR", e)
+            elif dv.startswith("restore:"):
+                var = dv.split(":", 1)[1]
+                if saved_d.get(var) == "E":
+                    cur = ("E", e)
+                else:
+                    raise AnalysisError(f"{fn.qualname}: flag {flag.name} is assigned from `{var}`, which is not a saved entry value")
+            elif dv.startswith("save:"):
+                if v == "E":
+                    saved_d[dv.split(":", 1)[1]] = "E"
         if is_exc:
             res = exc_states
         else:
@@ -270,6 +342,8 @@ def analyse_flag_function(model: Model, roles: Roles, cg: CallGraph, flag: Flag,
 
 def functions_touching(model: Model, cg: CallGraph, flag: Flag) -> list:
     out = {}
+    for f in flag.mixed:
+        out[f.qualname] = f
     for f in flag.setters + flag.clearers:
         for caller, _ in cg.callers(f):
             if isinstance(caller, FuncInfo) and caller.module.short != "_storage":
